@@ -336,9 +336,16 @@ fn zo_parse(st: &[u8]) -> Option<(u64, Vec<Option<Vec<u8>>>)> {
 
 struct ReorderHist {
     sign: i64,
+    /// 0: the 11-value history; n > 0: n values that are all separate runs (one 5-byte record each: more than 819 of them
+    /// exceed the builder's 4096-byte record buffer, which is then spilled to the file before finish())
+    n: usize,
 }
 impl ReorderHist {
     fn values(&self) -> Vec<usize> {
+        if self.n > 0 {
+            let v: Vec<usize> = (0..self.n).map(|i| 7 + 3 * i).collect();
+            return if self.sign == 1 { v } else { v.into_iter().rev().collect() };
+        }
         if self.sign == 1 {
             vec![10, 11, 12, 13, 100, 5, 6, 7, 1000, 1001, 3]
         } else {
@@ -355,7 +362,11 @@ fn ro_state(v: &[usize]) -> Vec<u8> {
 }
 impl CrashSpec for ReorderHist {
     fn name(&self) -> String {
-        format!("ZReorderMap[sign={}]: builder push x11, finish, open, iterate", self.sign)
+        if self.n == 0 {
+            format!("ZReorderMap[sign={}]: builder push x11, finish, open, iterate", self.sign)
+        } else {
+            format!("ZReorderMap[sign={}]: builder push x{} separate runs (buffer spill), finish, open, iterate", self.sign, self.n)
+        }
     }
     fn describe(&self) -> String {
         "ZReorderMapBuilder (run-length records with a declared element count) -> finish (fsync) -> ZReorderMap::open -> iterate all".into()
@@ -572,8 +583,9 @@ fn main() {
         reg.add(Crash { spec: ZipOffsetHist { compress: 0, checksum: 2, offsets: "memory", big: false }, shim: &SHIM });
         reg.add(Crash { spec: ZipOffsetHist { compress: 0, checksum: 3, offsets: "performance", big: false }, shim: &SHIM });
         reg.add(Crash { spec: ZipOffsetHist { compress: 0, checksum: 2, offsets: "default", big: true }, shim: &SHIM });
-        reg.add(Crash { spec: ReorderHist { sign: 1 }, shim: &SHIM });
-        reg.add(Crash { spec: ReorderHist { sign: -1 }, shim: &SHIM });
+        reg.add(Crash { spec: ReorderHist { sign: 1, n: 0 }, shim: &SHIM });
+        reg.add(Crash { spec: ReorderHist { sign: -1, n: 0 }, shim: &SHIM });
+        reg.add(Crash { spec: ReorderHist { sign: 1, n: 1000 }, shim: &SHIM });
         reg.add(Crash { spec: DictHist, shim: &SHIM });
         reg.add(Crash { spec: MmapVecHist2, shim: &SHIM });
         reg.add(Crash { spec: MmapVecHist3 { sync_on_write: false }, shim: &SHIM });
